@@ -20,6 +20,7 @@ from asynq import scheduler as _sched
 from asynq.batching import BatchBase, BatchItemBase
 from asynq.contexts import AsyncContext, NonAsyncContext
 from asynq.futures import ConstFuture, ErrorFuture, Future
+from asynq.futures import FutureBase as _FutureBase
 from asynq import scoped_value as _sv
 from asynq import tools as _tools
 
@@ -76,7 +77,8 @@ class _HelperFn(object):
         run, u = self.run, self.u
         obj = run.task_obj.get(u)
         if obj is None:
-            obj = run.fns[u].asynq()
+            f, a, kw = run.target(u, self.by)
+            obj = f.asynq(*a, **kw)
             run.register_task(u, obj, self.by)
         return obj
 
@@ -121,6 +123,10 @@ class HangError(BaseException):
     pass
 
 
+class ArgsLost(Exception):
+    """a task body did not receive the arguments it was called with"""
+
+
 _DEDUP_BODY = '''
     run = _tls.run if shared else me_run
     t = run.obj_id[id(_sched.get_active_task())]
@@ -163,6 +169,7 @@ class Run(object):
     def __init__(self, prog, schedule=None, tiebreak_seed=None, options=None, shared_dfns=None):
         self.prog = prog
         self.finished = False
+        self.unbound = {}
         self.vclock = 0
         self.options = options
         self.schedule = schedule      # list of kinds, one per scheduler flush round (steering) or None
@@ -368,9 +375,11 @@ class Run(object):
         if obj is None:
             if (u + by) % 4 == 0:
                 from asynq import async_call
-                obj = async_call.asynq(self.fns[u])       # "not sure whether fn is async": must hand back fn.asynq()
+                f, a, kw = self.target(u, by)
+                obj = async_call.asynq(f, *a, **kw)       # "not sure whether fn is async": must hand back fn.asynq()
             else:
-                obj = self.fns[u].asynq()
+                f, a, kw = self.target(u, by)
+                obj = f.asynq(*a, **kw)
             self.register_task(u, obj, by)
         return obj
 
@@ -397,6 +406,9 @@ class Run(object):
         d = self.prog["tasks"][u - 1]["dedup"]
         args, kwargs = self.spelling(d)
         obj = self.dfns[d["fn"]][d.get("bind", "fn")].asynq(*args, **kwargs)
+        if not isinstance(obj, _FutureBase):
+            self.emit("DedupCall", t=t, a=u, b=0)       # not a future: the call returned a plain value
+            return obj, u
         w = self.obj_id.get(id(obj))
         if w is None:
             self.register_task(u, obj, t)
@@ -546,8 +558,9 @@ class Run(object):
                     return 0
 
                 @asynq.asynq()
-                def body(self):
+                def body(self, tag=None, *, kw=None):
                     assert isinstance(self, Holder)
+                    run.check_args(t, tag, kw)
                     gen = run._interp(t)
                     v = exc = None
                     while True:          # manual delegation: `yield from` would turn a thrown GeneratorExit-family error into close()
@@ -568,11 +581,13 @@ class Run(object):
 
             h = Holder()
             self.keep.append(h)
+            self.unbound[t] = (Holder.body, h)      # the same method reached through the class: Holder.body.asynq(h, ...)
             return h.body
 
         if t % 4 == 2:
             @asynq.asynq(pure=True, cls=VTask)
-            def pbody():
+            def pbody(tag=None, *, kw=None):
+                run.check_args(t, tag, kw)
                 gen = run._interp(t)
                 v = exc = None
                 while True:          # manual delegation: `yield from` would turn a thrown GeneratorExit-family error into close()
@@ -593,16 +608,17 @@ class Run(object):
 
             # a pure function of a custom task class, given the usual conventions by hand
             class _Conv(object):
-                def asynq(self):
-                    return pbody()
+                def asynq(self, *a, **kw):
+                    return pbody(*a, **kw)
 
-                def __call__(self):
-                    return pbody().value()
+                def __call__(self, *a, **kw):
+                    return pbody(*a, **kw).value()
 
             return _Conv()
 
         @asynq.asynq()
-        def body():
+        def body(tag=None, *, kw=None):
+            run.check_args(t, tag, kw)
             gen = run._interp(t)
             v = exc = None
             while True:          # manual delegation: `yield from` would turn a thrown GeneratorExit-family error into close()
@@ -623,6 +639,19 @@ class Run(object):
 
         body.__name__ = "task%d" % t
         return body
+
+    def check_args(self, t, tag, kw):
+        """every task function is called with (t, kw=t): the body must receive exactly that, whichever convention was used"""
+        if tag != t or kw != t:
+            raise ArgsLost("task %d received tag=%r kw=%r" % (t, tag, kw))
+
+    def target(self, u, by):
+        """(callable, positional args, keyword args) for task u: the bound method, or - for some callers - the same method
+        reached through its class with the instance passed explicitly"""
+        if u in self.unbound and (u + by) % 3 == 1:
+            f, h = self.unbound[u]
+            return f, (h, u), {"kw": u}
+        return self.fns[u], (u,), {"kw": u}
 
     def _interp(self, t):
         run = self
@@ -832,7 +861,8 @@ class Run(object):
         try:
             obj = self.task_obj.get(u)
             if obj is None:
-                val = self.fns[u]()
+                f, a, kw = self.target(u, t)
+                val = f(*a, **kw)
             else:
                 val = obj.value()
         except BaseException as e:
@@ -890,7 +920,8 @@ class Run(object):
             self.emit("CallBegin", t=root, a={"call": 1, "value": 2}[conv])
             try:
                 if conv == "call" and root not in self.task_obj:
-                    out = self.fns[root]()
+                    f, a, kw = self.target(root, 0)
+                    out = f(*a, **kw)
                 else:
                     out = self.get_task(root, 0).value()
                 ev = dict(v=self.enc(out), u=0)
